@@ -396,13 +396,14 @@ YR_API int yr_rules_load_stream(YR_STREAM* stream, YR_RULES** rules)
 
   // Create the YR_RULES object from the arena, this makes YR_RULES owner
   // of the arena too.
-  FAIL_ON_ERROR(yr_rules_from_arena(arena, rules));
+  int result = yr_rules_from_arena(arena, rules);
 
   // Release our ownership so that YR_RULES is the single owner. This way the
-  // arena is destroyed when YR_RULES is destroyed.
+  // arena is destroyed when YR_RULES is destroyed. If yr_rules_from_arena
+  // failed we are still the only owner and this destroys the arena.
   yr_arena_release(arena);
 
-  return ERROR_SUCCESS;
+  return result;
 }
 
 YR_API int yr_rules_load(const char* filename, YR_RULES** rules)
